@@ -85,9 +85,9 @@ Example ex_regex_run :
   regex_provide ex_regex (continuity ex_text2) 1 1 [dict_node 1 2] = ROk [mkNode 1 4 1 2 (-30)%Z 4]
   /\ regex_provide ex_regex (continuity ex_text2) 1 4 [dict_node 1 4] = ROk [].
 Proof. vm_compute. split; reflexivity. Qed.
-(* an empty match trips the assertion of CreatedWords::single (debug profile); recorded for C03 *)
-Example ex_regex_empty_match_panics :
-  regex_provide (mkRegex (mkOov 1 2 0%Z 4) None false false [Some (true, 0%nat)]) [1%nat] 0 0 [] = RPanic.
+(* an empty match is not a word (before fix d4b32a6 it tripped the assertion of CreatedWords::single) *)
+Example ex_regex_empty_match_ignored :
+  regex_provide (mkRegex (mkOov 1 2 0%Z 4) None false false [Some (true, 0%nat)]) [1%nat] 0 0 [] = ROk [].
 Proof. vm_compute. reflexivity. Qed.
 
 (* permissible word starts: ZWJ (NOOOVBOW2) forbids itself and the next character *)
